@@ -8,6 +8,7 @@ import (
 	"verifharness/gen"
 	"verifharness/gram"
 	"verifharness/lrm"
+	"verifharness/ref"
 )
 
 // C07, C08, C17: decided on generated parsers (E-GEN); the model supplies the
@@ -111,6 +112,11 @@ func c07Corpus(w *Worker, base []*genCase) []*genCase {
 			add(alls, gen.UseLast)
 			add(alln, gen.UseLast)
 			add(alls, gen.NoAction)
+			if fam && ref.FromSpec(c.Spec).LR0().Table().ConflictFree {
+				// some rules without any action block: their value stays the zero value
+				add(alls, gen.Bare)
+				add(alln, gen.Bare)
+			}
 		}
 	}
 	// references written with a leading zero in rules of twelve symbols: $010 is the tenth symbol
@@ -154,7 +160,7 @@ func c07Corpus(w *Worker, base []*genCase) []*genCase {
 func traceName(n string) string {
 	// generated code prints parser.RemoveTempName(sy.Name): 'x' followed by a blank for literals
 	if gram.IsLit(n) {
-		return "'" + string(gram.LitChar(n)) + "' "
+		return "'" + string(gram.LitRune(n)) + "' "
 	}
 	return n
 }
